@@ -250,3 +250,44 @@ theorem tldSearch_finds_iff (U : UEnv) (w tld : CPs) (hm : tld ∈ tldList) :
       cases he
 
 end Pcfg.Detect
+
+namespace Pcfg.Detect
+open Generated.Tables
+
+/-- every top-level domain of the table starts with a dot -/
+theorem tld_head_dot : ∀ t ∈ tldList, t[0]? = some (cpOf '.') := by decide
+
+/-- **`detect_website` as a whole**: a website is detected in a string exactly when, in its lower-cased working copy, some top-level
+domain of the table has an occurrence that ends a host name -/
+theorem detectWebsite_isSome_iff (U : UEnv) (text : CPs) :
+    (detectWebsite U text).isSome = true ↔
+      ∃ tld ∈ tldList, ∃ k, OccursAt (U.lowerS text) tld k ∧ endsHost U (U.lowerS text) tld k = true := by
+  unfold detectWebsite
+  simp only
+  split
+  · next hdot =>
+    constructor
+    · intro h; cases h
+    · rintro ⟨tld, hm, k, hocc, _⟩
+      exfalso
+      have h0 := occursAt_get _ tld k hocc 0 (tld_ne_nil tld hm)
+      rw [tld_head_dot tld hm, Nat.add_zero] at h0
+      have hmem : cpOf '.' ∈ U.lowerS text := List.mem_of_getElem? h0
+      simp only [Bool.not_eq_true', List.contains_eq_mem, decide_eq_false_iff_not] at hdot
+      exact hdot hmem
+  · rw [List.findSome?_isSome_iff]
+    constructor
+    · rintro ⟨tld, hm, hs⟩
+      refine ⟨tld, hm, ?_⟩
+      apply (tldSearch_finds_iff U (U.lowerS text) tld hm).1
+      cases hr : tldOccurrence U (U.lowerS text) tld ((U.lowerS text).length + 1) (findSub (U.lowerS text) tld) with
+      | none => rw [hr] at hs; cases hs
+      | some t => rfl
+    · rintro ⟨tld, hm, hk⟩
+      refine ⟨tld, hm, ?_⟩
+      have := (tldSearch_finds_iff U (U.lowerS text) tld hm).2 hk
+      cases hr : tldOccurrence U (U.lowerS text) tld ((U.lowerS text).length + 1) (findSub (U.lowerS text) tld) with
+      | none => rw [hr] at this; cases this
+      | some t => rfl
+
+end Pcfg.Detect
